@@ -1,7 +1,1363 @@
-//! C10 — TODO
-use mc_core::Ctx;
+//! C10 — a restored Cardano database is accepted only if every file is the certified one.
+//!
+//! Bounded exhaustive enumeration on the real `mithril-client` proving API, driven exactly as the
+//! CLI drives it (`download_and_verify_digests` → `verify_cardano_database` →
+//! `MessageBuilder::compute_cardano_database_message` → `CertificateMessage::match_message`),
+//! through a `Client` built with the public `ClientBuilder`, a harness `FileDownloader` that plays
+//! the (possibly hostile) digest mirror, and a directory on tmpfs that plays the restored database.
+//!
+//! The honest digests and the signed Merkle root are produced by the harness itself (SHA-256 with
+//! the `sha2` crate over the bytes it wrote, `MKTree` over the digests in file order) and are
+//! cross-checked once at start-up against the real `CardanoImmutableDigester`.
+//!
+//! Oracle (implication only): accepted ⇒ the digest sequence the client retained is the signed one,
+//! every canonical file of the requested range is present (unless gaps were allowed) and every
+//! immutable file of the range holds the bytes certified FOR ITS NAME. Completeness: the honest
+//! directory with the honest list is accepted for every valid range.
 
-pub fn run(_ctx: &Ctx) -> ! {
-    eprintln!("C10: not implemented");
-    std::process::exit(2)
+use std::collections::{BTreeMap, BTreeSet};
+use std::path::{Path, PathBuf};
+use std::sync::atomic::{AtomicU64, Ordering};
+use std::sync::{Arc, Mutex};
+
+use async_trait::async_trait;
+use mc_core::{Ctx, Report, catch, par_map};
+use serde::{Deserialize, Serialize};
+use serde_json::{Value, json};
+use sha2::{Digest, Sha256};
+
+use mithril_cardano_node_internal_database::digesters::{CardanoImmutableDigester, ImmutableDigester};
+use mithril_client::cardano_database_client::{CardanoDatabaseVerificationError, ImmutableFileRange};
+use mithril_client::certificate_client::CertificateVerifier;
+use mithril_client::file_downloader::{DownloadEvent, FileDownloader, FileDownloaderUri};
+use mithril_client::{
+    AggregatorDiscoveryType, Client, ClientBuilder, GenesisVerificationKey, MessageBuilder, MithrilCertificate,
+    MithrilResult,
+};
+use mithril_common::crypto_helper::{MKTree, MKTreeStoreInMemory};
+use mithril_common::entities::{
+    CardanoDbBeacon, CompressionAlgorithm, DigestLocation, Epoch, ProtocolMessage, ProtocolMessagePartKey,
+    SignedEntityType,
+};
+use mithril_common::messages::{CardanoDatabaseSnapshotMessage, CertificateMessage, DigestsMessagePart};
+use mithril_common::test::double::Dummy;
+
+const TYPES: [&str; 3] = ["chunk", "primary", "secondary"];
+
+// ───────────────────────────── the honest world ─────────────────────────────
+
+#[derive(Clone, Debug, Serialize, Deserialize, PartialEq, Eq, Hash)]
+pub struct Db {
+    /// beacon immutable file number: the trios 0..=last are certified
+    last: u64,
+    /// the in-progress trio last+1 is present in the directory (it comes with the ancillary archive)
+    next_trio: bool,
+    /// the served list also holds the entries of trio last+1 (the aggregator is ahead of the beacon)
+    list_beyond: bool,
+    /// 00001.primary holds the same bytes as 00000.primary (two certified files with equal digests)
+    dup: bool,
+}
+
+fn std_name(n: u64, t: usize) -> String {
+    format!("{n:05}.{}", TYPES[t])
+}
+
+fn honest_content(n: u64, t: usize, db: &Db) -> Vec<u8> {
+    let n_eff = if db.dup && n == 1 && t == 1 { 0 } else { n } as usize;
+    let len = 4 + (n_eff * 3 + t) % 5;
+    let mut v = vec![b'A' + n_eff as u8, b"cps"[t]];
+    for i in 2..len {
+        v.push(b'0' + ((n_eff * 7 + t * 3 + i) % 10) as u8);
+    }
+    v
+}
+
+/// bytes that no honest file holds (honest files start with an upper-case letter)
+fn fresh_content(name: &str) -> Vec<u8> {
+    let h = mc_core::hash64(name).to_le_bytes();
+    vec![b'#', h[0], h[1], h[2], h[3]]
+}
+
+fn sha_hex(bytes: &[u8]) -> String {
+    hex::encode(Sha256::digest(bytes))
+}
+
+/// harness-side reading of "this directory entry is an immutable file, number n": extension is one
+/// of the three immutable kinds and the stem is a plain decimal number
+fn imm_number(name: &str) -> Option<u64> {
+    let (stem, ext) = name.rsplit_once('.')?;
+    if !TYPES.contains(&ext) || stem.is_empty() || !stem.bytes().all(|b| b.is_ascii_digit()) {
+        return None;
+    }
+    stem.parse().ok()
+}
+
+/// number carried by a served-list entry name (any extension) — used to build cases only
+fn entry_number(name: &str) -> Option<u64> {
+    let stem = name.rsplit_once('.').map(|x| x.0).unwrap_or(name);
+    if stem.is_empty() || !stem.bytes().all(|b| b.is_ascii_digit()) {
+        return None;
+    }
+    stem.parse().ok()
+}
+
+struct Honest {
+    db: Db,
+    /// the honest restored directory `immutable/`
+    files: BTreeMap<String, Vec<u8>>,
+    /// certified names in file order (number, name)
+    names: Vec<String>,
+    /// names of the in-progress trio
+    next_names: Vec<String>,
+    /// certified name -> hex SHA-256 of the certified bytes
+    digest_of: BTreeMap<String, String>,
+    /// digests of the in-progress trio
+    next_digest_of: BTreeMap<String, String>,
+    /// certified digests in file order = the signed leaf sequence
+    digests: Vec<String>,
+    digest_set: BTreeSet<String>,
+    content_by_digest: BTreeMap<String, Vec<u8>>,
+    root_hex: String,
+    /// the digest list the honest aggregator publishes
+    list: Vec<(String, String)>,
+    certificate: CertificateMessage,
+    snapshot: CardanoDatabaseSnapshotMessage,
+}
+
+impl Honest {
+    fn new(db: &Db) -> Honest {
+        let mut files = BTreeMap::new();
+        let mut names = vec![];
+        let mut next_names = vec![];
+        let mut digest_of = BTreeMap::new();
+        let mut next_digest_of = BTreeMap::new();
+        let mut digests = vec![];
+        let mut content_by_digest = BTreeMap::new();
+        for n in 0..=db.last + 1 {
+            for t in 0..3 {
+                let name = std_name(n, t);
+                let c = honest_content(n, t, db);
+                let d = sha_hex(&c);
+                content_by_digest.insert(d.clone(), c.clone());
+                if n <= db.last {
+                    names.push(name.clone());
+                    digest_of.insert(name.clone(), d.clone());
+                    digests.push(d);
+                    files.insert(name, c);
+                } else {
+                    next_names.push(name.clone());
+                    next_digest_of.insert(name.clone(), d);
+                    if db.next_trio {
+                        files.insert(name, c);
+                    }
+                }
+            }
+        }
+        let tree: MKTree<MKTreeStoreInMemory> = MKTree::new(&digests).expect("honest tree");
+        let root_hex = tree.compute_root().expect("honest root").to_hex();
+        let mut list: Vec<(String, String)> = names.iter().map(|n| (n.clone(), digest_of[n].clone())).collect();
+        if db.list_beyond {
+            for n in &next_names {
+                list.push((n.clone(), next_digest_of[n].clone()));
+            }
+        }
+        let beacon = CardanoDbBeacon::new(7, db.last);
+        let mut pm = ProtocolMessage::new();
+        pm.set_message_part(ProtocolMessagePartKey::CardanoDatabaseMerkleRoot, root_hex.clone());
+        pm.set_message_part(ProtocolMessagePartKey::NextAggregateVerificationKey, "next-avk-of-the-harness".to_string());
+        pm.set_message_part(ProtocolMessagePartKey::CurrentEpoch, "7".to_string());
+        let certificate = CertificateMessage {
+            hash: "certificate-of-the-harness".to_string(),
+            epoch: Epoch(7),
+            signed_entity_type: SignedEntityType::CardanoDatabase(beacon.clone()).into(),
+            signed_message: pm.compute_hash(),
+            protocol_message: pm,
+            ..CertificateMessage::dummy()
+        };
+        let snapshot = CardanoDatabaseSnapshotMessage {
+            merkle_root: root_hex.clone(),
+            beacon,
+            certificate_hash: certificate.hash.clone(),
+            digests: DigestsMessagePart {
+                size_uncompressed: 4096,
+                locations: vec![DigestLocation::CloudStorage {
+                    uri: "http://mirror.invalid/digests.json".to_string(),
+                    compression_algorithm: None,
+                }],
+            },
+            ..CardanoDatabaseSnapshotMessage::dummy()
+        };
+        let digest_set = digests.iter().cloned().collect();
+        Honest {
+            db: db.clone(),
+            files,
+            names,
+            next_names,
+            digest_of,
+            next_digest_of,
+            digests,
+            digest_set,
+            content_by_digest,
+            root_hex,
+            list,
+            certificate,
+            snapshot,
+        }
+    }
+}
+
+// ───────────────────────────── tamperings ─────────────────────────────
+
+#[derive(Clone, Debug, Serialize, Deserialize, PartialEq, Eq, Hash)]
+enum DirOp {
+    Flip { file: String, byte: usize },
+    Truncate { file: String, len: usize },
+    Append { file: String },
+    /// write bytes that are not certified for any file (creates the file when absent)
+    Fresh { file: String },
+    Delete { file: String },
+    Swap { a: String, b: String },
+    /// copy the bytes of `from` over `to` (creates `to` when absent)
+    Copy { from: String, to: String },
+    Move { from: String, to: String },
+    SwapTrio { a: u64, b: u64 },
+    CopyTrio { from: u64, to: u64 },
+    /// an extra directory `<db>/<parent>/immutable` holding the honest files; `first`: created before
+    /// the real `immutable` directory (directory listing order on tmpfs follows creation)
+    Decoy { parent: String, first: bool },
+    /// make the directory agree, name by name, with the list the mirror serves
+    ConformToList,
+}
+
+#[derive(Clone, Debug, Serialize, Deserialize, PartialEq, Eq, Hash)]
+enum Dg {
+    /// the honest digest of that (certified or in-progress) file
+    Of(String),
+    /// digest of bytes nobody certified
+    Fresh(String),
+    /// digest of what the directory currently holds under that name
+    Dir(String),
+    Text(String),
+}
+
+#[derive(Clone, Debug, Serialize, Deserialize, PartialEq, Eq, Hash)]
+enum RawKind {
+    NotJson,
+    EmptyFile,
+    EmptyArray,
+    ObjectInsteadOfArray,
+    DownloadFails,
+    TwoFiles,
+}
+
+#[derive(Clone, Debug, Serialize, Deserialize, PartialEq, Eq, Hash)]
+enum ListOp {
+    Rename { from: String, to: String },
+    Drop { name: String },
+    Add { name: String, digest: Dg },
+    SetDigest { name: String, digest: Dg },
+    SwapDigests { a: String, b: String },
+    Reverse,
+    Rotate,
+    Transpose { i: usize, j: usize },
+    /// the mirror re-labels the signed digest sequence: `names` (sorted as the client sorts them)
+    /// are attached, in order, to the honest digests
+    Relabel { names: Vec<String> },
+    Raw(RawKind),
+}
+
+#[derive(Clone, Debug, Serialize, Deserialize, PartialEq, Eq, Hash)]
+enum Op {
+    Dir(DirOp),
+    List(ListOp),
+}
+
+#[derive(Clone, Copy, Debug, Serialize, Deserialize, PartialEq, Eq, Hash)]
+enum Rng {
+    Full,
+    From(u64),
+    UpTo(u64),
+    Range(u64, u64),
+}
+
+impl Rng {
+    fn real(&self) -> ImmutableFileRange {
+        match *self {
+            Rng::Full => ImmutableFileRange::Full,
+            Rng::From(a) => ImmutableFileRange::From(a),
+            Rng::UpTo(b) => ImmutableFileRange::UpTo(b),
+            Rng::Range(a, b) => ImmutableFileRange::Range(a, b),
+        }
+    }
+    /// the numbers the caller asked for, as the API documents the four forms; None = not a range of
+    /// this database
+    fn reference(&self, last: u64) -> Option<(u64, u64)> {
+        match *self {
+            Rng::Full => Some((0, last)),
+            Rng::From(a) if a <= last => Some((a, last)),
+            Rng::UpTo(b) if b <= last => Some((0, b)),
+            Rng::Range(a, b) if a <= b && b <= last => Some((a, b)),
+            _ => None,
+        }
+    }
+}
+
+fn all_ranges(last: u64) -> Vec<Rng> {
+    let mut v = vec![Rng::Full];
+    for a in 0..=last {
+        v.push(Rng::From(a));
+    }
+    for b in 0..=last {
+        v.push(Rng::UpTo(b));
+    }
+    for a in 0..=last {
+        for b in a..=last {
+            v.push(Rng::Range(a, b));
+        }
+    }
+    v
+}
+
+fn invalid_ranges(last: u64) -> Vec<Rng> {
+    let mut v = vec![Rng::From(last + 1), Rng::UpTo(last + 1), Rng::Range(0, last + 1), Rng::Range(last + 1, last + 1)];
+    if last >= 1 {
+        v.push(Rng::Range(1, 0));
+    }
+    v
+}
+
+#[derive(Clone, Debug)]
+struct State {
+    dir: BTreeMap<String, Vec<u8>>,
+    list: Vec<(String, String)>,
+    raw: Option<RawKind>,
+    decoys: Vec<(String, bool)>,
+}
+
+fn resolve(dg: &Dg, h: &Honest, st: &State) -> String {
+    match dg {
+        Dg::Of(n) => h.digest_of.get(n).or_else(|| h.next_digest_of.get(n)).cloned().unwrap_or_else(|| sha_hex(&fresh_content(n))),
+        Dg::Fresh(n) => sha_hex(&fresh_content(n)),
+        Dg::Dir(n) => st.dir.get(n).map(|c| sha_hex(c)).unwrap_or_else(|| sha_hex(&fresh_content(n))),
+        Dg::Text(t) => t.clone(),
+    }
+}
+
+fn apply(h: &Honest, ops: &[Op]) -> State {
+    let mut st = State { dir: h.files.clone(), list: h.list.clone(), raw: None, decoys: vec![] };
+    for op in ops {
+        match op {
+            Op::Dir(d) => match d {
+                DirOp::Flip { file, byte } => {
+                    if let Some(c) = st.dir.get_mut(file)
+                        && *byte < c.len()
+                    {
+                        c[*byte] ^= 0x01;
+                    }
+                }
+                DirOp::Truncate { file, len } => {
+                    if let Some(c) = st.dir.get_mut(file) {
+                        c.truncate(*len);
+                    }
+                }
+                DirOp::Append { file } => {
+                    if let Some(c) = st.dir.get_mut(file) {
+                        c.push(b'!');
+                    }
+                }
+                DirOp::Fresh { file } => {
+                    st.dir.insert(file.clone(), fresh_content(file));
+                }
+                DirOp::Delete { file } => {
+                    st.dir.remove(file);
+                }
+                DirOp::Swap { a, b } => {
+                    let (ca, cb) = (st.dir.remove(a), st.dir.remove(b));
+                    if let Some(c) = cb {
+                        st.dir.insert(a.clone(), c);
+                    }
+                    if let Some(c) = ca {
+                        st.dir.insert(b.clone(), c);
+                    }
+                }
+                DirOp::Copy { from, to } => {
+                    if let Some(c) = st.dir.get(from).cloned() {
+                        st.dir.insert(to.clone(), c);
+                    }
+                }
+                DirOp::Move { from, to } => {
+                    if let Some(c) = st.dir.remove(from) {
+                        st.dir.insert(to.clone(), c);
+                    }
+                }
+                DirOp::SwapTrio { a, b } => {
+                    for t in 0..3 {
+                        let (na, nb) = (std_name(*a, t), std_name(*b, t));
+                        let (ca, cb) = (st.dir.remove(&na), st.dir.remove(&nb));
+                        if let Some(c) = cb {
+                            st.dir.insert(na, c);
+                        }
+                        if let Some(c) = ca {
+                            st.dir.insert(nb, c);
+                        }
+                    }
+                }
+                DirOp::CopyTrio { from, to } => {
+                    for t in 0..3 {
+                        if let Some(c) = st.dir.get(&std_name(*from, t)).cloned() {
+                            st.dir.insert(std_name(*to, t), c);
+                        }
+                    }
+                }
+                DirOp::Decoy { parent, first } => st.decoys.push((parent.clone(), *first)),
+                DirOp::ConformToList => {
+                    // last entry wins, as in any map built from the list
+                    let served: BTreeMap<String, String> = st.list.iter().cloned().collect();
+                    for n in &h.names {
+                        st.dir.remove(n);
+                    }
+                    for (name, dg) in &served {
+                        if let Some(n) = imm_number(name)
+                            && n <= h.db.last
+                            && let Some(c) = h.content_by_digest.get(dg)
+                        {
+                            st.dir.insert(name.clone(), c.clone());
+                        }
+                    }
+                }
+            },
+            Op::List(l) => match l {
+                ListOp::Rename { from, to } => {
+                    for e in st.list.iter_mut() {
+                        if &e.0 == from {
+                            e.0 = to.clone();
+                        }
+                    }
+                }
+                ListOp::Drop { name } => st.list.retain(|e| &e.0 != name),
+                ListOp::Add { name, digest } => {
+                    let d = resolve(digest, h, &st);
+                    st.list.push((name.clone(), d));
+                }
+                ListOp::SetDigest { name, digest } => {
+                    let d = resolve(digest, h, &st);
+                    for e in st.list.iter_mut() {
+                        if &e.0 == name {
+                            e.1 = d.clone();
+                        }
+                    }
+                }
+                ListOp::SwapDigests { a, b } => {
+                    let ia = st.list.iter().position(|e| &e.0 == a);
+                    let ib = st.list.iter().position(|e| &e.0 == b);
+                    if let (Some(ia), Some(ib)) = (ia, ib) {
+                        let (da, db) = (st.list[ia].1.clone(), st.list[ib].1.clone());
+                        st.list[ia].1 = db;
+                        st.list[ib].1 = da;
+                    }
+                }
+                ListOp::Reverse => st.list.reverse(),
+                ListOp::Rotate => {
+                    if !st.list.is_empty() {
+                        st.list.rotate_left(1);
+                    }
+                }
+                ListOp::Transpose { i, j } => {
+                    if *i < st.list.len() && *j < st.list.len() {
+                        st.list.swap(*i, *j);
+                    }
+                }
+                ListOp::Relabel { names } => {
+                    let mut sorted = names.clone();
+                    sorted.sort();
+                    let mut out: Vec<(String, String)> = sorted.into_iter().zip(h.digests.iter().cloned()).collect();
+                    out.extend(st.list.iter().filter(|e| entry_number(&e.0).is_none_or(|n| n > h.db.last)).cloned());
+                    st.list = out;
+                }
+                ListOp::Raw(k) => st.raw = Some(k.clone()),
+            },
+        }
+    }
+    st
+}
+
+fn list_json(list: &[(String, String)]) -> Vec<u8> {
+    // the format of mithril-aggregator's DigestArtifactBuilder::create_digest_file
+    let v: Vec<Value> = list.iter().map(|(n, d)| json!({"immutable_file_name": n, "digest": d})).collect();
+    serde_json::to_vec(&v).unwrap()
+}
+
+// ───────────────────────────── environment doubles ─────────────────────────────
+
+enum Payload {
+    Files(Vec<(String, Vec<u8>)>),
+    Fail,
+}
+
+/// the digest mirror: whatever the case says, written where the client asks for it
+struct Mirror {
+    payload: Mutex<Payload>,
+    last_target: Mutex<Option<PathBuf>>,
+    calls: AtomicU64,
+    unexpected: AtomicU64,
+}
+
+#[async_trait]
+impl FileDownloader for Mirror {
+    async fn download_unpack(
+        &self,
+        _location: &FileDownloaderUri,
+        _file_size: u64,
+        target_dir: &Path,
+        compression_algorithm: Option<CompressionAlgorithm>,
+        download_event_type: DownloadEvent,
+    ) -> mithril_common::StdResult<()> {
+        self.calls.fetch_add(1, Ordering::Relaxed);
+        if compression_algorithm.is_some() || !matches!(download_event_type, DownloadEvent::Digest { .. }) {
+            self.unexpected.fetch_add(1, Ordering::Relaxed);
+        }
+        *self.last_target.lock().unwrap() = Some(target_dir.to_path_buf());
+        match &*self.payload.lock().unwrap() {
+            Payload::Fail => Err(anyhow::anyhow!("mirror unreachable")),
+            Payload::Files(fs) => {
+                std::fs::create_dir_all(target_dir)?;
+                for (n, b) in fs {
+                    std::fs::write(target_dir.join(n), b)?;
+                }
+                Ok(())
+            }
+        }
+    }
+}
+
+/// the certificate chain is C03's business: here the certificate is taken as validated
+struct ChainAlreadyValidated;
+
+#[async_trait]
+impl CertificateVerifier for ChainAlreadyValidated {
+    async fn verify_chain(&self, _certificate: &MithrilCertificate) -> MithrilResult<()> {
+        Ok(())
+    }
+}
+
+struct Worker {
+    client: Client,
+    mirror: Arc<Mirror>,
+    rt: tokio::runtime::Runtime,
+    base: PathBuf,
+}
+
+fn new_worker(base: PathBuf) -> Worker {
+    let mirror = Arc::new(Mirror {
+        payload: Mutex::new(Payload::Fail),
+        last_target: Mutex::new(None),
+        calls: AtomicU64::new(0),
+        unexpected: AtomicU64::new(0),
+    });
+    let client = ClientBuilder::new(AggregatorDiscoveryType::Url("http://127.0.0.1:9/".to_string()))
+        .set_genesis_verification_key(GenesisVerificationKey::JsonHex("not-used-the-chain-is-taken-as-validated".to_string()))
+        .with_certificate_verifier(Arc::new(ChainAlreadyValidated))
+        .with_http_file_downloader(mirror.clone())
+        .build()
+        .expect("ClientBuilder::build");
+    let rt = tokio::runtime::Builder::new_current_thread().enable_time().build().expect("tokio runtime");
+    std::fs::create_dir_all(&base).expect("worker dir");
+    Worker { client, mirror, rt, base }
+}
+
+fn materialize(w: &Worker, h: &Honest, st: &State) -> PathBuf {
+    let db = w.base.join("db");
+    let _ = std::fs::remove_dir_all(&db);
+    std::fs::create_dir_all(&db).expect("db dir");
+    let decoy = |parent: &str| {
+        let d = db.join(parent).join("immutable");
+        std::fs::create_dir_all(&d).expect("decoy dir");
+        for (n, c) in &h.files {
+            std::fs::write(d.join(n), c).expect("decoy file");
+        }
+    };
+    for (p, first) in &st.decoys {
+        if *first {
+            decoy(p);
+        }
+    }
+    let imm = db.join("immutable");
+    std::fs::create_dir_all(&imm).expect("immutable dir");
+    for (n, c) in &st.dir {
+        std::fs::write(imm.join(n), c).expect("immutable file");
+    }
+    for (p, first) in &st.decoys {
+        if !*first {
+            decoy(p);
+        }
+    }
+    db
+}
+
+fn set_mirror(w: &Worker, st: &State) {
+    let body = list_json(&st.list);
+    let p = match &st.raw {
+        None => Payload::Files(vec![("digests.json".into(), body)]),
+        Some(RawKind::NotJson) => Payload::Files(vec![("digests.json".into(), b"these are not digests".to_vec())]),
+        Some(RawKind::EmptyFile) => Payload::Files(vec![("digests.json".into(), vec![])]),
+        Some(RawKind::EmptyArray) => Payload::Files(vec![("digests.json".into(), b"[]".to_vec())]),
+        Some(RawKind::ObjectInsteadOfArray) => {
+            let m: serde_json::Map<String, Value> = st.list.iter().map(|(n, d)| (n.clone(), json!(d))).collect();
+            Payload::Files(vec![("digests.json".into(), serde_json::to_vec(&m).unwrap())])
+        }
+        Some(RawKind::DownloadFails) => Payload::Fail,
+        Some(RawKind::TwoFiles) => Payload::Files(vec![("digests.json".into(), body.clone()), ("digests-2.json".into(), body)]),
+    };
+    *w.mirror.payload.lock().unwrap() = p;
+}
+
+// ───────────────────────────── one case ─────────────────────────────
+
+#[derive(Clone, Debug, Serialize, Deserialize)]
+struct Case {
+    db: Db,
+    ops: Vec<Op>,
+    #[serde(default)]
+    range: Option<Rng>,
+    #[serde(default)]
+    allow_missing: Option<bool>,
+}
+
+fn describe(c: &Case) -> String {
+    format!(
+        "database of {} certified trio(s){}{}{}, tampering {}",
+        c.db.last + 1,
+        if c.db.next_trio { " + in-progress trio" } else { "" },
+        if c.db.list_beyond { ", list ahead of beacon" } else { "" },
+        if c.db.dup { ", two equal files" } else { "" },
+        if c.ops.is_empty() { "none".to_string() } else { serde_json::to_string(&c.ops).unwrap() }
+    )
+}
+
+/// the reference predicate for one accepted verification; None = the property holds
+fn judge_accepted(
+    h: &Honest,
+    st: &State,
+    retained: &BTreeMap<String, String>,
+    (lo, hi): (u64, u64),
+    allow_missing: bool,
+) -> Option<(&'static str, String)> {
+    if !allow_missing {
+        for n in lo..=hi {
+            for t in 0..3 {
+                let name = std_name(n, t);
+                if !st.dir.contains_key(&name) {
+                    return Some((
+                        "C10/missing-file-accepted",
+                        format!("{name} is absent from the directory, gaps were not allowed, and verification succeeded"),
+                    ));
+                }
+            }
+        }
+    }
+    // every immutable file of the range must hold the bytes certified for its own name
+    let mut uncertified_bytes = vec![];
+    let mut wrong_name_vs_served = vec![];
+    let mut name_unknown_to_served = vec![];
+    let mut agrees_with_served_only = vec![];
+    for (name, content) in &st.dir {
+        let Some(n) = imm_number(name) else { continue };
+        if n < lo || n > hi {
+            continue;
+        }
+        let d = sha_hex(content);
+        if h.digest_of.get(name) == Some(&d) {
+            continue;
+        }
+        if !h.digest_set.contains(&d) {
+            uncertified_bytes.push(name.clone());
+        } else {
+            match retained.get(name) {
+                Some(v) if *v == d => agrees_with_served_only.push(name.clone()),
+                Some(_) => wrong_name_vs_served.push(name.clone()),
+                None => name_unknown_to_served.push(name.clone()),
+            }
+        }
+    }
+    if !uncertified_bytes.is_empty() {
+        let key = if st.decoys.is_empty() { "C10/uncertified-content-accepted" } else { "C10/decoy-immutable-directory-verified" };
+        return Some((key, format!("{uncertified_bytes:?} hold bytes that hash to no certified digest at all, and verification succeeded")));
+    }
+    if !wrong_name_vs_served.is_empty() {
+        return Some((
+            "C10/content-swapped-between-names",
+            format!(
+                "{wrong_name_vs_served:?} hold bytes certified for ANOTHER file name (their SHA-256 differs from the digest the verified list gives for that very name), and verification succeeded"
+            ),
+        ));
+    }
+    if !name_unknown_to_served.is_empty() {
+        return Some((
+            "C10/file-name-without-certified-digest-accepted",
+            format!(
+                "{name_unknown_to_served:?} are immutable files of the requested range whose names have no entry in the verified digest list; they hold a copy of some certified file, and verification succeeded"
+            ),
+        ));
+    }
+    if !agrees_with_served_only.is_empty() {
+        return Some((
+            "C10/served-list-names-not-bound-to-signed-digests",
+            format!(
+                "{agrees_with_served_only:?} hold bytes certified for another file; they agree with the SERVED list, which attaches the signed digest sequence to other names and still reproduces the signed root"
+            ),
+        ));
+    }
+    None
+}
+
+fn run_case(w: &Worker, h: &Honest, case: &Case, ranges: &[Rng]) -> Report {
+    let mut rep = Report::new("exploration", "");
+    let st = apply(h, &case.ops);
+    let db_dir = materialize(w, h, &st);
+    set_mirror(w, &st);
+    let honest_case = case.ops.is_empty();
+    let cdb = w.client.cardano_database_v2();
+    let replay_of = |r: Option<Rng>, a: Option<bool>| {
+        serde_json::to_value(Case { db: case.db.clone(), ops: case.ops.clone(), range: r, allow_missing: a }).unwrap()
+    };
+
+    // step 1 — the digest list
+    let dl = catch(|| w.rt.block_on(cdb.download_and_verify_digests(&h.certificate, &h.snapshot)));
+    let verified = match dl {
+        Err(p) => {
+            rep.eval();
+            rep.outcome("digest-list:panic");
+            rep.add_extra("panics_observed", 1);
+            if honest_case {
+                rep.violation(
+                    "C10/honest-digest-list-rejected",
+                    format!("download_and_verify_digests panicked ({p} at {}) on the honest list; {}", mc_core::last_panic_location(), describe(case)),
+                    replay_of(None, None),
+                );
+            }
+            return rep;
+        }
+        Ok(Err(e)) => {
+            rep.eval();
+            let msg = format!("{e:#}");
+            rep.outcome(if msg.contains("does not match the computed message") { "digest-list:rejected(root not signed)" } else { "digest-list:rejected(unusable)" });
+            rep.nontrivial(&("list-rejected", &case.db, &case.ops));
+            if honest_case {
+                rep.violation(
+                    "C10/honest-digest-list-rejected",
+                    format!("download_and_verify_digests refuses the honest list: {msg}; {}", describe(case)),
+                    replay_of(None, None),
+                );
+            }
+            return rep;
+        }
+        Ok(Ok(v)) => v,
+    };
+    rep.outcome("digest-list:accepted");
+    // clause 1: what the client retained is the signed leaf sequence
+    let retained: Vec<String> = verified.digests.values().cloned().collect();
+    let tree_root = verified.merkle_tree.compute_root().map(|r| r.to_hex()).unwrap_or_default();
+    if retained != h.digests || tree_root != h.root_hex {
+        rep.eval();
+        rep.violation(
+            "C10/digest-list-not-reproducing-signed-root-accepted",
+            format!(
+                "download_and_verify_digests accepted a list whose retained digests {:?} (tree root {tree_root}) are not the signed sequence (root {}); {}",
+                verified.digests, h.root_hex, describe(case)
+            ),
+            replay_of(None, None),
+        );
+    }
+
+    // step 2..4 — the directory, for every range and both settings of allow_missing
+    for &r in ranges {
+        for allow in [false, true] {
+            if case.range.is_some_and(|x| x != r) || case.allow_missing.is_some_and(|x| x != allow) {
+                continue;
+            }
+            rep.eval();
+            let reference = r.reference(h.db.last);
+            let res = catch(|| {
+                w.rt.block_on(async {
+                    let proof = cdb
+                        .verify_cardano_database(&h.certificate, &h.snapshot, &r.real(), allow, &db_dir, &verified)
+                        .await?;
+                    let msg = MessageBuilder::new().compute_cardano_database_message(&h.certificate, &proof).await;
+                    Ok::<_, CardanoDatabaseVerificationError>(msg.map(|m| h.certificate.match_message(&m)))
+                })
+            });
+            let (accepted, label): (bool, String) = match &res {
+                Err(_) => {
+                    rep.add_extra("panics_observed", 1);
+                    (false, "panic".into())
+                }
+                Ok(Ok(Ok(true))) => (true, "accepted".into()),
+                Ok(Ok(Ok(false))) => (false, "verified-but-message-differs".into()),
+                Ok(Ok(Err(_))) => (false, "verified-but-message-not-computable".into()),
+                Ok(Err(e)) => (
+                    false,
+                    match e {
+                        CardanoDatabaseVerificationError::ImmutableFilesVerification(l) => {
+                            let mut parts = vec![];
+                            if !l.missing.is_empty() {
+                                parts.push("missing");
+                            }
+                            if !l.tampered.is_empty() {
+                                parts.push("tampered");
+                            }
+                            if !l.non_verifiable.is_empty() {
+                                parts.push("non-verifiable");
+                            }
+                            if parts.is_empty() {
+                                rep.add_extra("rejections_naming_no_file", 1);
+                                "rejected(no file named)".to_string()
+                            } else {
+                                format!("rejected({})", parts.join("+"))
+                            }
+                        }
+                        CardanoDatabaseVerificationError::DigestsComputation(_) => "rejected(digests computation)".into(),
+                        CardanoDatabaseVerificationError::MerkleProofVerification(_) => {
+                            rep.add_extra("rejections_naming_no_file", 1);
+                            "rejected(merkle proof verification)".into()
+                        }
+                        CardanoDatabaseVerificationError::ImmutableFilesRangeCreation(_) => "rejected(range)".into(),
+                    },
+                ),
+            };
+            let Some(bounds) = reference else {
+                // not a range of this database: no verdict, only an observation
+                rep.outcome(&format!("invalid-range:{label}"));
+                continue;
+            };
+            rep.outcome(&label);
+            rep.nontrivial(&(&case.db, &case.ops, r, allow));
+            if accepted {
+                if let Some((key, what)) = judge_accepted(h, &st, &verified.digests, bounds, allow) {
+                    rep.violation(
+                        key,
+                        format!(
+                            "{what}. Range {r:?} (numbers {}..={}), allow_missing={allow}; {}; directory now: {}",
+                            bounds.0,
+                            bounds.1,
+                            describe(case),
+                            dir_summary(h, &st)
+                        ),
+                        replay_of(Some(r), Some(allow)),
+                    );
+                } else if !honest_case && rep.samples.len() < 1 && !case.ops.is_empty() {
+                    rep.sample(json!({"case": replay_of(Some(r), Some(allow)), "outcome": label}));
+                }
+            } else if honest_case {
+                let detail = match &res {
+                    Ok(Err(e)) => format!("{e}"),
+                    Err(p) => format!("panic {p} at {}", mc_core::last_panic_location()),
+                    _ => label.clone(),
+                };
+                let key = if h.db.dup { "C10/honest-database-with-equal-files-rejected" } else { "C10/honest-database-rejected" };
+                rep.violation(
+                    key,
+                    format!("the untampered directory with the honest list is not accepted for range {r:?}, allow_missing={allow}: {label}: {detail}; {}", describe(case)),
+                    replay_of(Some(r), Some(allow)),
+                );
+            } else if rep.samples.len() < 1 {
+                rep.sample(json!({"case": replay_of(Some(r), Some(allow)), "outcome": label}));
+            }
+        }
+    }
+    rep
+}
+
+fn dir_summary(h: &Honest, st: &State) -> String {
+    let mut parts = vec![];
+    for (n, c) in &st.dir {
+        let d = sha_hex(c);
+        let what = if h.digest_of.get(n) == Some(&d) || h.next_digest_of.get(n) == Some(&d) {
+            continue;
+        } else if let Some((owner, _)) = h.digest_of.iter().find(|(_, v)| **v == d) {
+            format!("{n}=bytes of {owner}")
+        } else {
+            format!("{n}=uncertified bytes {}", hex::encode(c))
+        };
+        parts.push(what);
+    }
+    for n in h.files.keys() {
+        if !st.dir.contains_key(n) {
+            parts.push(format!("{n} absent"));
+        }
+    }
+    if parts.is_empty() { "as certified".into() } else { parts.join(", ") }
+}
+
+// ───────────────────────────── the enumerated space ─────────────────────────────
+
+fn aliases(n: u64, t: usize) -> Vec<String> {
+    vec![format!("{n}.{}", TYPES[t]), format!("{n:06}.{}", TYPES[t])]
+}
+
+fn dir_singles(h: &Honest, reduced: bool) -> Vec<DirOp> {
+    let c = &h.names;
+    let mut v = vec![];
+    for f in c {
+        let len = h.files[f].len();
+        let bytes: Vec<usize> = if reduced { vec![0] } else { (0..len).collect() };
+        for b in bytes {
+            v.push(DirOp::Flip { file: f.clone(), byte: b });
+        }
+        v.push(DirOp::Truncate { file: f.clone(), len: len - 1 });
+        if !reduced {
+            v.push(DirOp::Truncate { file: f.clone(), len: len / 2 });
+            v.push(DirOp::Append { file: f.clone() });
+        }
+        v.push(DirOp::Truncate { file: f.clone(), len: 0 });
+        v.push(DirOp::Fresh { file: f.clone() });
+        v.push(DirOp::Delete { file: f.clone() });
+    }
+    for (i, a) in c.iter().enumerate() {
+        for (j, b) in c.iter().enumerate() {
+            if i < j {
+                v.push(DirOp::Swap { a: a.clone(), b: b.clone() });
+            }
+            if i != j {
+                v.push(DirOp::Copy { from: a.clone(), to: b.clone() });
+            }
+        }
+    }
+    if h.db.next_trio && !reduced {
+        for f in &h.next_names {
+            for to in c {
+                v.push(DirOp::Copy { from: f.clone(), to: to.clone() });
+            }
+        }
+        for from in c.iter().take(1) {
+            for f in &h.next_names {
+                v.push(DirOp::Copy { from: from.clone(), to: f.clone() });
+            }
+        }
+    }
+    // files under names the list does not know: other spellings of a number of the range
+    for n in 0..=h.db.last {
+        for t in 0..3 {
+            for (k, alias) in aliases(n, t).into_iter().enumerate() {
+                if reduced && k > 0 {
+                    continue;
+                }
+                let srcs: Vec<&String> = if reduced { vec![&c[0]] } else { c.iter().collect() };
+                for from in srcs {
+                    v.push(DirOp::Copy { from: from.clone(), to: alias.clone() });
+                }
+                v.push(DirOp::Fresh { file: alias.clone() });
+                v.push(DirOp::Move { from: std_name(n, t), to: alias.clone() });
+            }
+        }
+    }
+    // beyond the beacon and not-immutable entries: outside the property's domain, must not disturb
+    let beyond = std_name(h.db.last + 2, 0);
+    v.push(DirOp::Fresh { file: beyond.clone() });
+    v.push(DirOp::Copy { from: c[0].clone(), to: beyond });
+    v.push(DirOp::Fresh { file: "README".into() });
+    v.push(DirOp::Fresh { file: "00000.txt".into() });
+    v.push(DirOp::Copy { from: c[0].clone(), to: "00000.chunk.bak".into() });
+    for a in 0..=h.db.last {
+        for b in 0..=h.db.last {
+            if a < b {
+                v.push(DirOp::SwapTrio { a, b });
+            }
+            if a != b {
+                v.push(DirOp::CopyTrio { from: a, to: b });
+            }
+        }
+    }
+    if h.db.next_trio {
+        v.push(DirOp::CopyTrio { from: h.db.last + 1, to: h.db.last });
+    }
+    v
+}
+
+fn list_singles(h: &Honest, reduced: bool) -> Vec<ListOp> {
+    let c = &h.names;
+    let mut v = vec![];
+    for (i, f) in c.iter().enumerate() {
+        let n = entry_number(f).unwrap();
+        let t = i % 3;
+        let other = &c[(i + 1) % c.len()];
+        let mut tos = vec![
+            format!("{n}.{}", TYPES[t]),
+            format!("{n:05}.{}x", TYPES[t]),
+            std_name(h.db.last + 2, t),
+            format!("abc.{}", TYPES[t]),
+        ];
+        if !reduced {
+            tos.push(format!("{n:06}.{}", TYPES[t]));
+            tos.push(format!("{n:05}"));
+            if other != f {
+                tos.push(other.clone());
+            }
+        }
+        for to in tos {
+            v.push(ListOp::Rename { from: f.clone(), to });
+        }
+        v.push(ListOp::Drop { name: f.clone() });
+        let others: Vec<&String> = if reduced { vec![other] } else { c.iter().filter(|x| *x != f).collect() };
+        for o in others {
+            if o != f {
+                v.push(ListOp::SetDigest { name: f.clone(), digest: Dg::Of(o.clone()) });
+            }
+        }
+        v.push(ListOp::SetDigest { name: f.clone(), digest: Dg::Fresh(f.clone()) });
+        if !reduced {
+            v.push(ListOp::SetDigest { name: f.clone(), digest: Dg::Text(String::new()) });
+            v.push(ListOp::SetDigest { name: f.clone(), digest: Dg::Text("zz".into()) });
+            v.push(ListOp::SetDigest { name: f.clone(), digest: Dg::Text(h.digest_of[f].to_uppercase()) });
+            if h.db.next_trio || h.db.list_beyond {
+                v.push(ListOp::SetDigest { name: f.clone(), digest: Dg::Of(h.next_names[t].clone()) });
+            }
+        }
+        // a second entry under the same name
+        v.push(ListOp::Add { name: f.clone(), digest: Dg::Fresh(f.clone()) });
+        if !reduced {
+            v.push(ListOp::Add { name: f.clone(), digest: Dg::Of(f.clone()) });
+            if other != f {
+                v.push(ListOp::Add { name: f.clone(), digest: Dg::Of(other.clone()) });
+            }
+        }
+        // a foreign entry under another spelling of the number
+        v.push(ListOp::Add { name: format!("{n}.{}", TYPES[t]), digest: Dg::Of(f.clone()) });
+        if !reduced {
+            v.push(ListOp::Add { name: format!("{n}.{}", TYPES[t]), digest: Dg::Fresh(f.clone()) });
+            v.push(ListOp::Add { name: format!("{n:05}.{}x", TYPES[t]), digest: Dg::Fresh(f.clone()) });
+        }
+    }
+    if h.db.list_beyond {
+        for f in &h.next_names {
+            v.push(ListOp::Drop { name: f.clone() });
+            v.push(ListOp::SetDigest { name: f.clone(), digest: Dg::Fresh(f.clone()) });
+        }
+    }
+    v.push(ListOp::Add { name: std_name(h.db.last + 2, 0), digest: Dg::Fresh("beyond".into()) });
+    v.push(ListOp::Add { name: "abc.chunk".into(), digest: Dg::Fresh("abc".into()) });
+    v.push(ListOp::Add { name: String::new(), digest: Dg::Fresh("empty".into()) });
+    for (i, a) in c.iter().enumerate() {
+        for (j, b) in c.iter().enumerate() {
+            if i < j && (!reduced || j == i + 1) {
+                v.push(ListOp::SwapDigests { a: a.clone(), b: b.clone() });
+            }
+        }
+    }
+    v.push(ListOp::Reverse);
+    v.push(ListOp::Rotate);
+    let len = h.list.len();
+    for i in 0..len {
+        for j in i + 1..len {
+            if !reduced || j == i + 1 {
+                v.push(ListOp::Transpose { i, j });
+            }
+        }
+    }
+    for k in [RawKind::NotJson, RawKind::EmptyFile, RawKind::EmptyArray, RawKind::ObjectInsteadOfArray, RawKind::DownloadFails, RawKind::TwoFiles] {
+        v.push(ListOp::Raw(k));
+    }
+    v
+}
+
+/// names a hostile mirror may attach to the signed digest sequence: the canonical ones plus other
+/// spellings / other extensions that sort before, between and after them
+fn relabel_pool(last: u64) -> Vec<String> {
+    let mut v = vec![];
+    for n in 0..=last {
+        for t in 0..3 {
+            v.push(std_name(n, t));
+            v.push(format!("{n}.{}", TYPES[t]));
+        }
+        v.push(format!("{n:05}.aaa"));
+        v.push(format!("{n:05}.d"));
+        v.push(format!("{n:05}.q"));
+        v.push(format!("{n:05}.zzz"));
+    }
+    v
+}
+
+/// multi-step tamperings a hostile mirror would make consistently (directory and list together)
+fn hostile_families(h: &Honest) -> Vec<Vec<Op>> {
+    let c = &h.names;
+    let mut v: Vec<Vec<Op>> = vec![];
+    for f in c {
+        v.push(vec![Op::Dir(DirOp::Fresh { file: f.clone() }), Op::List(ListOp::SetDigest { name: f.clone(), digest: Dg::Dir(f.clone()) })]);
+        v.push(vec![Op::Dir(DirOp::Flip { file: f.clone(), byte: 0 }), Op::List(ListOp::SetDigest { name: f.clone(), digest: Dg::Dir(f.clone()) })]);
+        v.push(vec![Op::Dir(DirOp::Delete { file: f.clone() }), Op::List(ListOp::Drop { name: f.clone() })]);
+        for first in [true, false] {
+            v.push(vec![Op::Dir(DirOp::Decoy { parent: "ledger".into(), first }), Op::Dir(DirOp::Fresh { file: f.clone() })]);
+            v.push(vec![Op::Dir(DirOp::Decoy { parent: "ledger".into(), first }), Op::Dir(DirOp::Delete { file: f.clone() })]);
+        }
+    }
+    for first in [true, false] {
+        v.push(vec![Op::Dir(DirOp::Decoy { parent: "ledger".into(), first })]);
+    }
+    for (i, a) in c.iter().enumerate() {
+        for (j, b) in c.iter().enumerate() {
+            if i < j {
+                v.push(vec![Op::Dir(DirOp::Swap { a: a.clone(), b: b.clone() }), Op::List(ListOp::SwapDigests { a: a.clone(), b: b.clone() })]);
+            }
+            if i != j {
+                v.push(vec![Op::Dir(DirOp::Copy { from: a.clone(), to: b.clone() }), Op::List(ListOp::SetDigest { name: b.clone(), digest: Dg::Of(a.clone()) })]);
+            }
+        }
+    }
+    // re-labelled lists: every choice of names from the pool for one trio, every "drop one canonical
+    // name, insert one foreign name" shift for larger databases; with the honest directory and with
+    // the directory the mirror would ship along with such a list
+    let pool = relabel_pool(h.db.last);
+    let k = c.len();
+    let mut relabelings: Vec<Vec<String>> = vec![];
+    if h.db.last == 0 {
+        for mask in mc_core::subsets(pool.len()) {
+            if mask.count_ones() as usize == k {
+                relabelings.push(pool.iter().enumerate().filter(|(i, _)| mask >> i & 1 == 1).map(|(_, n)| n.clone()).collect());
+            }
+        }
+    } else {
+        for drop in c {
+            for ins in pool.iter().filter(|p| !c.contains(p)) {
+                let mut names: Vec<String> = c.iter().filter(|x| *x != drop).cloned().collect();
+                names.push(ins.clone());
+                relabelings.push(names);
+            }
+        }
+    }
+    for names in relabelings {
+        let mut sorted = names.clone();
+        sorted.sort();
+        if sorted == *c {
+            continue;
+        }
+        v.push(vec![Op::List(ListOp::Relabel { names: names.clone() })]);
+        v.push(vec![Op::List(ListOp::Relabel { names }), Op::Dir(DirOp::ConformToList)]);
+    }
+    v
+}
+
+fn cases_for(db: &Db, h: &Honest, depth2: bool) -> Vec<Case> {
+    let mk = |ops: Vec<Op>| Case { db: db.clone(), ops, range: None, allow_missing: None };
+    let mut v = vec![mk(vec![])];
+    for d in dir_singles(h, false) {
+        v.push(mk(vec![Op::Dir(d)]));
+    }
+    for l in list_singles(h, false) {
+        v.push(mk(vec![Op::List(l)]));
+    }
+    if !db.dup {
+        for f in hostile_families(h) {
+            v.push(mk(f));
+        }
+    }
+    if depth2 {
+        let ds = dir_singles(h, true);
+        let ls = list_singles(h, true);
+        for (i, a) in ds.iter().enumerate() {
+            for b in ds.iter().skip(i + 1) {
+                v.push(mk(vec![Op::Dir(a.clone()), Op::Dir(b.clone())]));
+                // the order matters for copy/swap chains
+                if matches!(a, DirOp::Copy { .. } | DirOp::Swap { .. } | DirOp::Move { .. }) || matches!(b, DirOp::Copy { .. } | DirOp::Swap { .. } | DirOp::Move { .. }) {
+                    v.push(mk(vec![Op::Dir(b.clone()), Op::Dir(a.clone())]));
+                }
+            }
+        }
+        for a in &ds {
+            for b in &ls {
+                v.push(mk(vec![Op::Dir(a.clone()), Op::List(b.clone())]));
+            }
+        }
+        for (i, a) in ls.iter().enumerate() {
+            for b in ls.iter().skip(i + 1) {
+                v.push(mk(vec![Op::List(a.clone()), Op::List(b.clone())]));
+            }
+        }
+    }
+    v
+}
+
+// ───────────────────────────── start-up self-check ─────────────────────────────
+
+/// the harness' own digests and root must be what the real digester (the one signers and the
+/// aggregator run) produces on the untampered directory
+fn self_check(w: &Worker, h: &Honest) -> Result<(), String> {
+    let st = apply(h, &[]);
+    let db_dir = materialize(w, h, &st);
+    let logger = slog::Logger::root(slog::Discard, slog::o!());
+    let digester = CardanoImmutableDigester::new(None, logger);
+    let beacon = h.snapshot.beacon.clone();
+    let (tree, entries) = w.rt.block_on(async {
+        let tree = digester.compute_merkle_tree(&db_dir, &beacon).await.map_err(|e| format!("compute_merkle_tree: {e:?}"))?;
+        let entries =
+            digester.compute_digests_for_range(&db_dir, &(0..=h.db.last)).await.map_err(|e| format!("compute_digests_for_range: {e:?}"))?;
+        Ok::<_, String>((tree, entries))
+    })?;
+    let root = tree.compute_root().map_err(|e| format!("{e:?}"))?.to_hex();
+    if root != h.root_hex {
+        return Err(format!("harness root {} differs from the real digester's root {root} for {:?}", h.root_hex, h.db));
+    }
+    let real: Vec<(String, String)> = entries.entries.iter().map(|(f, d)| (f.filename.clone(), d.clone())).collect();
+    let mine: Vec<(String, String)> = h.names.iter().map(|n| (n.clone(), h.digest_of[n].clone())).collect();
+    if real != mine {
+        return Err(format!("harness digests {mine:?} differ from the real digester's {real:?}"));
+    }
+    Ok(())
+}
+
+// ───────────────────────────── driver ─────────────────────────────
+
+struct Pool {
+    free: Mutex<Vec<Worker>>,
+}
+
+impl Pool {
+    fn with<T>(&self, f: impl FnOnce(&Worker) -> T) -> T {
+        let w = self.free.lock().unwrap().pop().expect("one worker per thread");
+        let out = f(&w);
+        self.free.lock().unwrap().push(w);
+        out
+    }
+}
+
+pub fn run(ctx: &Ctx) -> ! {
+    let scratch = ctx.scratch();
+    // the client puts the downloaded digest file under std::env::temp_dir(): keep it on our tmpfs.
+    // Done before any thread exists.
+    let tmp = scratch.join("tmp");
+    std::fs::create_dir_all(&tmp).expect("tmp dir");
+    unsafe {
+        std::env::set_var("TMPDIR", &tmp);
+    }
+
+    let mut rep = Report::new(
+        "exploration",
+        "every database of the size lattice x every tampering of the restored directory and of the served digest list \
+         (all single structural deviations, the hostile-mirror families that change both consistently; thorough: all pairs \
+         from the reduced alphabets) x every valid range (Full, From, UpTo, Range) x allow_missing on/off is pushed through \
+         the real client (download_and_verify_digests, verify_cardano_database, compute_cardano_database_message, \
+         match_message); a case is non-trivial when the digest list step was decided on a tampered or honest list and, if \
+         accepted, the directory step ran for a valid range; distinct = distinct (database, tampering, range, allow_missing)",
+    );
+    let threads = ctx.threads().max(1);
+
+    // one client per worker thread, each with its own mirror, runtime, directory and digest temp dir
+    let mut workers = vec![];
+    let mut seen_tmp: BTreeSet<PathBuf> = BTreeSet::new();
+    let probe_db = Db { last: 0, next_trio: true, list_beyond: false, dup: false };
+    let probe_h = Honest::new(&probe_db);
+    for i in 0..threads {
+        let mut tries = 0;
+        loop {
+            let w = new_worker(scratch.join(format!("w{i}")));
+            set_mirror(&w, &apply(&probe_h, &[]));
+            let ok = w.rt.block_on(w.client.cardano_database_v2().download_and_verify_digests(&probe_h.certificate, &probe_h.snapshot));
+            let target = w.mirror.last_target.lock().unwrap().clone();
+            match (ok, target) {
+                (Ok(_), Some(t)) if t.starts_with(&tmp) && seen_tmp.insert(t.clone()) => {
+                    workers.push(w);
+                    break;
+                }
+                (Ok(_), Some(t)) if tries < 20 => {
+                    // two clients built within the same microsecond share a temp dir name: rebuild
+                    let _ = t;
+                    tries += 1;
+                }
+                (r, t) => {
+                    rep.machinery_error(format!("cannot set up worker {i}: probe download {:?}, digest target {:?}", r.map(|_| ()).map_err(|e| format!("{e:#}")), t));
+                    rep.finish(ctx);
+                }
+            }
+        }
+    }
+    let pool = Pool { free: Mutex::new(workers) };
+
+    // replay of one stored case
+    if let Some(path) = &ctx.replay {
+        let v = mc_core::load_replay(path);
+        let case: Case = match serde_json::from_value(v) {
+            Ok(c) => c,
+            Err(e) => {
+                rep.machinery_error(format!("replay file does not hold a C10 case: {e}"));
+                rep.finish(ctx);
+            }
+        };
+        let h = Honest::new(&case.db);
+        let ranges = all_ranges(case.db.last);
+        let r = pool.with(|w| run_case(w, &h, &case, &ranges));
+        rep.merge(r);
+        let honest = Case { db: case.db.clone(), ops: vec![], range: None, allow_missing: None };
+        let r = pool.with(|w| run_case(w, &h, &honest, &ranges));
+        rep.merge(r);
+        rep.finish(ctx);
+    }
+
+    // the database lattice
+    let (max_last, depth2_max_last): (u64, Option<u64>) = ctx.tier.pick((2, None), (3, Some(1)));
+    let mut dbs = vec![];
+    for last in 0..=max_last {
+        for (next_trio, list_beyond) in [(true, true), (true, false), (false, false), (false, true)] {
+            dbs.push(Db { last, next_trio, list_beyond, dup: false });
+        }
+    }
+    dbs.push(Db { last: 1, next_trio: true, list_beyond: true, dup: true });
+    if max_last >= 2 {
+        dbs.push(Db { last: 2, next_trio: true, list_beyond: false, dup: true });
+    }
+    let honests: Vec<Honest> = dbs.iter().map(Honest::new).collect();
+
+    // self-check of the harness' independent digests/root against the real digester
+    for h in &honests {
+        if let Err(e) = pool.with(|w| self_check(w, h)) {
+            rep.machinery_error(format!("self-check failed: {e}"));
+            rep.finish(ctx);
+        }
+    }
+    rep.extra("self_check", json!(format!("independent SHA-256 digests and MKTree root equal CardanoImmutableDigester::compute_merkle_tree / compute_digests_for_range on {} untampered directories", honests.len())));
+
+    let mut work: Vec<(usize, Case)> = vec![];
+    let mut per_db = vec![];
+    for (i, h) in honests.iter().enumerate() {
+        let depth2 = depth2_max_last.is_some_and(|m| h.db.last <= m) && h.db.next_trio && !h.db.list_beyond && !h.db.dup;
+        let cs = cases_for(&h.db, h, depth2);
+        per_db.push(json!({"db": h.db, "tamperings": cs.len(), "pairs_included": depth2, "valid_ranges": all_ranges(h.db.last).len()}));
+        for c in cs {
+            work.push((i, c));
+        }
+    }
+    // VERIF_SEED permutes the order of execution only
+    if ctx.seed != 0 {
+        work.sort_by_key(|(i, c)| mc_core::mix(ctx.seed, mc_core::hash64(&(i, &c.ops))));
+    }
+    rep.extra("databases", json!(per_db));
+    rep.extra("tamperings_total", json!(work.len()));
+    rep.extra(
+        "bounds",
+        json!({
+            "certified_trios": format!("1..={}", max_last + 1),
+            "file_sizes_bytes": "4..=8",
+            "simultaneous_deviations": if depth2_max_last.is_some() { "1, hostile-mirror families, and all pairs (reduced alphabets) for databases of <= 2 trios" } else { "1 and hostile-mirror families" },
+        }),
+    );
+
+    let parts = par_map(&work, threads, |_, (i, case)| {
+        let h = &honests[*i];
+        let mut ranges = all_ranges(h.db.last);
+        if case.ops.is_empty() {
+            ranges.extend(invalid_ranges(h.db.last));
+        }
+        pool.with(|w| run_case(w, h, case, &ranges))
+    });
+    for p in parts {
+        rep.merge(p);
+    }
+    let unexpected: u64 = pool.free.lock().unwrap().iter().map(|w| w.mirror.unexpected.load(Ordering::Relaxed)).sum();
+    if unexpected > 0 {
+        rep.machinery_error(format!("the mirror double was asked {unexpected} times for something that is not the plain digest file"));
+    }
+    let calls: u64 = pool.free.lock().unwrap().iter().map(|w| w.mirror.calls.load(Ordering::Relaxed)).sum();
+    rep.extra("digest_downloads_served", json!(calls));
+    rep.assume("the certificate handed to the client is the validated one (chain validation is C03); its signed message is ProtocolMessage::compute_hash over parts that include the honest Merkle root");
+    rep.assume("MKTree / SHA-256 are collision free on the enumerated values (C09 covers the tree); 'the list reproduces the signed root' is judged as: the digest sequence the client retained equals the signed sequence");
+    rep.assume("an 'immutable file of the range' is a directory entry of <db>/immutable with extension chunk|primary|secondary whose stem is a plain decimal number inside the range; other entries carry no obligation");
+    rep.assume("directories live on tmpfs; the client's digest temp dir is redirected there through TMPDIR");
+    rep.finish(ctx)
 }
